@@ -132,6 +132,7 @@ let rop = function
   | App [Id "OSetAttrNested"; a; l] -> OSetAttrNested (rz a, rlist rzl l)
   | App [Id "OSetAttrSet"; a; l] -> OSetAttrSet (rz a, rzl l)
   | App [Id "OSetAttrDict"; a; l] -> OSetAttrDict (rz a, rlist (rpair rz rz) l)
+  | App [Id "OSetAttrDictOfLists"; a; l] -> OSetAttrDictOfLists (rz a, rlist (rpair rz rzl) l)
   | x -> bad "op" x
 let rops = function
   | Lst l -> List.map rop l
